@@ -129,7 +129,7 @@ def eval_case(n_points, specs, weights, thr, detail=False):
             cov = set().union(*want) if want else set()
             if set(out[1]) != pts - cov:
                 prob = ("C16:get_tree_from_consensus_graph:outliers:%s" % shape, "outliers %r, uncovered points %r" % (out[1], sorted(pts - cov)))
-    except AbsError as e:
+    except (AbsError, ValueError) as e:  # ValueError: a clone without any data point below it
         out = None
         key = "C16:relabel:two-empty-own-sets:not-a-forest" if shape == "two-empty-own-sets" else "C16:from_dict_nx:invalid-tree:%s" % shape
         prob = (key, "the consensus tree is not a valid tree: %s" % e)
